@@ -167,6 +167,14 @@ def check_molecule(g, mol: Mol, text):
 
 
 def _cmp_token(t, ta: Token, what):
+    out = _cmp_token0(t, ta, what)
+    # verified cause of a known defect: a hydrogen written explicitly inside a multi-atom token is counted as an atom by the scanner
+    if out and any(isinstance(x, str) and "[H]" in x and x != "[H]" for x in ta.items) and len(ta.chem()["atoms"]) > 1:
+        return [("explicit-hydrogen-counted-as-atom", msg) for _, msg in out if "atom is" in msg or "fragment" in msg] or out
+    return out
+
+
+def _cmp_token0(t, ta: Token, what):
     out = []
     ch = ta.chem()
     ds = ta.descs
@@ -238,7 +246,8 @@ def run(tier):
     n_mix = 0
     for txt, kind, val in ((".|.5%|", "pct", 0.5), (".|5000|", "abs", 5000.0), (".|25%|", "pct", 25.0), (".|2.|", "abs", 2.0), (".|5e2|", "abs", 500.0),
                            (".| 10 %|", "pct", 10.0), (".|1234.|", "abs", 1234.0), (".|.25|", "abs", 0.25), (".|0.5%|", "pct", 0.5), (".|100%|", "pct", 100.0),
-                           (".|1e-1%|", "pct", 0.1), (".|  750  |", "abs", 750.0)):
+                           (".|1e-1%|", "pct", 0.1), (".|  750  |", "abs", 750.0), (".|2.5e+1%|", "pct", 25.0), (".|5e-1%|", "pct", 0.5),
+                           (".|1E+3|", "abs", 1000.0), (".|6e4|", "abs", 60000.0), (".|1.5E1%|", "pct", 15.0)):
         n_mix += 1
         for where, make in (("Mixture", lambda t: g.Mixture(t)), ("Molecule", lambda t: g.Molecule("CCO" + t).mixture)):
             try:
